@@ -9,3 +9,4 @@ open GoRedis
 #print axioms C15_stop_waits_for_connections
 #print axioms C15_seq_stop
 #print axioms C15_seq_start_serves
+#print axioms C15_source_lifecycle
